@@ -518,6 +518,22 @@ public:
 		, mSize(arraySize)
 	{ }
 
+	~CMsgPackReadBinaryScope()
+	{
+		try
+		{
+			// Skip bytes that was not read (to keep the reader in sync with the parent scope)
+			for (; mIndex < mSize; ++mIndex) {
+				mMsgPackReader->ReadBinary();
+			}
+		}
+		catch (...)
+		{
+			// Destructor must not throw, the error (e.g. unexpected end of input) will be reported at the end of loading
+			GetContext().SetDeferredException(std::current_exception());
+		}
+	}
+
 	/// <summary>
 	/// Gets the current path in MsgPack.
 	/// </summary>
@@ -581,6 +597,22 @@ public:
 		, mMsgPackReader(msgPackReader)
 		, mSize(arraySize)
 	{ }
+
+	~CMsgPackReadArrayScope()
+	{
+		try
+		{
+			// Skip values that was not read (to keep the reader in sync with the parent scope)
+			for (; mIndex < mSize; ++mIndex) {
+				mMsgPackReader->SkipValue();
+			}
+		}
+		catch (...)
+		{
+			// Destructor must not throw, the error (e.g. unexpected end of input) will be reported at the end of loading
+			GetContext().SetDeferredException(std::current_exception());
+		}
+	}
 
 	/// <summary>
 	/// Gets the current path in MsgPack.
